@@ -459,6 +459,11 @@ class World:
                 return a in b
             if op == "not in":
                 return a not in b
+        if k == "bin" and t[1] in ("+", "-", "*"):
+            a, b = self.eval(t[2]), self.eval(t[3])
+            if isinstance(a, (int, float)) and isinstance(b, (int, float)) and not isinstance(a, bool) and not isinstance(b, bool):
+                return a + b if t[1] == "+" else (a - b if t[1] == "-" else a * b)
+            raise Unrecognised(f"arithmetic on non-numeric model values in {key(t)}")
         if k == "tuple":
             return tuple(self.eval(x) for x in t[1])
         if k == "list":
